@@ -1,17 +1,14 @@
 (* C20/Tie.v — obligations on what was REGENERATED from /repo on this run:
      Run.GenTables    the three CSV files of scippneutron/atoms as Coq data
                       (tools/csv2coq.py: raw lines + rows split at commas)
-     Run.GenAtoms     reference_wavelength            (tools/py2coq.py)
-     Run.GenMaterial  Material.attenuation_coefficient (tools/py2coq.py)
+   (the attenuation law on the regenerated Material.attenuation_coefficient is in TieAtt.v)
 
    Finite facts about the current tables are decided by vm_compute (the tables
    are closed data: a genuinely finite domain) and lifted through the generic,
-   unbounded lemmas of Verif.C20.Proofs.  The attenuation law is proved
-   directly on the regenerated term, over R, for arbitrary units. *)
-From Coq Require Import Reals ZArith NArith String Ascii List Bool Lra.
-From Verif.Sem Require Import Field Val RInst RLemmas.
-From Verif.C20 Require Import Dec Model Spec Proofs SemExt.
-From Run Require Import GenTables GenAtoms GenMaterial.
+   unbounded lemmas of Verif.C20.Proofs. *)
+From Coq Require Import ZArith NArith String Ascii List Bool.
+From Verif.C20 Require Import Dec Model Spec Proofs.
+From Run Require Import GenTables.
 Import ListNotations.
 Open Scope string_scope.
 
@@ -168,40 +165,3 @@ Proof.
   rewrite Hw, Hn in Hz. exact Hz.
 Qed.
 
-(* ---------- attenuation: directly on the regenerated Material.attenuation_coefficient *)
-Open Scope R_scope.
-Definition d_area : dims := dscale 2 d_m.
-Definition d_invvol : dims := dscale (-3) d_m.
-Definition d_invm : dims := dscale (-1) d_m.
-Definition angstrom : R := 1 / 10000000000.
-
-Ltac all_num :=
-  repeat match goal with
-         | H : is_num ?d = true |- _ => destruct d; try discriminate H; clear H
-         end.
-
-Section Att.
-Variables h mn : R.
-Notation O := (ROps h mn).
-Notation tv := (tvar h mn).
-
-(* n: number density, value n in a unit of multiplier sn (dimension 1/length^3);
-   ss, sa: total-scattering / absorption cross-sections in (possibly different) units of area
-   with multipliers us, ua;  l: wavelength in a unit of length with multiplier sl.
-   The result is a scalar in the unit  (unit of n)*(unit of ss)  of dimension 1/length whose
-   physical (SI) value is  n (ss + sa * l / (1.7982 angstrom)). *)
-Lemma attenuation_exact n sn ss us sa ua l sl dn ds da dl :
-  sn > 0 -> us > 0 -> ua > 0 -> sl > 0 ->
-  is_num dn = true -> is_num ds = true -> is_num da = true -> is_num dl = true ->
-  is_qty' h mn
-    (Material_attenuation_coefficient O
-       (mk_material O (tv n sn d_invvol dn) (tv ss us d_area ds) (tv sa ua d_area da))
-       (tv l sl d_m dl))
-    ((n * sn) * ((ss * us) + (sa * ua) * ((l * sl) / (17982 / 10000 * angstrom))))
-    (sn * us) d_invm.
-Proof using.
-  intros; all_num; sem_cbv;
-    (eexists; eexists; eexists; split; [reflexivity|]; split; [reflexivity|]; split;
-     [reflexivity | unfold angstrom; field; lra]).
-Qed.
-End Att.
